@@ -3,12 +3,120 @@ use crate::props::acct::{self, Which};
 use crate::props::decide;
 use crate::rt::Ctx;
 
+/// A stall-gated link whose socket cannot send: the duplicate probes the real send_stall_probes queues on it reach
+/// their flush threshold (4 in the low-activity regime, i.e. after 400 routed data packets) and that flush fails.
+/// Whatever was registered for that link never left it: a NAK for a probed number, after the carrier has been
+/// forgotten (5 s), must not be charged to it.
+#[derive(Debug, Clone, Hash, serde::Serialize, serde::Deserialize)]
+pub struct ProbeFail {
+    pub victim: u8,
+    pub silent_ms: u16,
+    pub packets: u16,
+    pub nak_pick: u16,
+    pub classic: bool,
+}
+
+pub fn check_probe_fail(c: &ProbeFail, obs: &mut crate::rt::Obs) -> crate::rt::CheckResult {
+    use crate::engine::shell::Shell;
+    use srtla_send::sender::verif_hooks as vh;
+    let mut cfg = srtla_core::ConfigSnapshot::default();
+    if c.classic {
+        cfg.mode = srtla_core::SchedulingMode::Classic;
+    }
+    let mut sh = Shell::new(&[0, 1], cfg);
+    sh.establish_all();
+    let v = (c.victim % 2) as usize;
+    let h = 1 - v;
+    let pkt = |seq: u32| -> Vec<u8> {
+        let mut p = vec![0u8; 40];
+        p[0..4].copy_from_slice(&seq.to_be_bytes());
+        p[4] = 0xc0;
+        p[16..20].copy_from_slice(&seq.to_be_bytes());
+        p
+    };
+    // low-activity batch regime (threshold 4): a housekeeping pass on idle links
+    sh.housekeeping_core();
+    // the victim is loaded, then falls silent beside a healthy link while decisions are taken: it gets gated
+    let t = sh.now();
+    for k in 0..40u32 {
+        let p = pkt(10 + k);
+        let Shell { rt, st } = &mut sh;
+        rt.block_on(vh::forward_via_connection(v, &p, Some(10 + k), &mut st.conns, &st.conn_io, &mut st.last_selected, &mut st.seq_tracker, t));
+    }
+    sh.flush_tick();
+    sh.advance(c.silent_ms as u64);
+    sh.uplink_pkt(h, &[0x80, 0x06, 0, 0, 0, 0, 0, 0]);
+    sh.client_pkt(&pkt(100));
+    sh.flush_tick();
+    let _ = sh.drain_wire();
+    if !sh.st.conns[v].is_stall_gated() {
+        obs.class("victim-not-gated");
+        return Ok(());
+    }
+    sh.break_socket(v);
+    // stream: the healthy link carries everything, every 100th data packet is duplicated onto the gated link
+    let mut probed: Vec<u32> = Vec::new();
+    for k in 0..c.packets as u32 {
+        let seq = 1000 + k;
+        let p = pkt(seq);
+        sh.uplink_pkt(h, &[0x80, 0x06, 0, 0, 0, 0, 0, 0]);
+        let before = sh.st.conns[v].batch_sender.queued_count();
+        sh.client_pkt(&p);
+        if sh.st.conns[v].batch_sender.queued_count() > before || sh.st.conns[v].packet_log.contains_key(&(seq as i32)) {
+            probed.push(seq);
+        }
+        if k % 16 == 15 {
+            // only the healthy link's timer flush (the victim's own flush is what the probes' threshold triggers)
+            let Shell { rt, st } = &mut sh;
+            let (a, b) = st.conns.split_at_mut(1);
+            let hc = if h == 0 { &mut a[..1] } else { &mut b[..1] };
+            rt.block_on(vh::flush_all_batches(hc, &st.conn_io));
+            sh.advance(15);
+        }
+        let _ = sh.drain_wire();
+        if !sh.st.conns[v].connected {
+            break;
+        }
+    }
+    if probed.is_empty() {
+        obs.class("no-probe-made");
+        return Ok(());
+    }
+    obs.class("probes-queued-on-a-link-that-cannot-send");
+    let torn = !sh.st.conns[v].connected;
+    if torn {
+        obs.class("probe-flush-failed-link-torn-down");
+        obs.nontrivial = true;
+    }
+    // the carrier is forgotten after 5 s; the healthy link keeps being heard
+    sh.advance(5001);
+    sh.uplink_pkt(h, &[0x80, 0x06, 0, 0, 0, 0, 0, 0]);
+    let seq = probed[crate::rt::idx(c.nak_pick, probed.len())];
+    let snap = |sh: &Shell| -> Vec<(i32, i32, i32)> { sh.st.conns.iter().map(|c| (c.total_nak_count(), c.window, c.in_flight_packets)).collect() };
+    let b = snap(&sh);
+    let queued_only = sh.st.conns[v].batch_sender.verif_queue_snapshot().iter().any(|(_, s)| *s == Some(seq));
+    let mut nak = vec![0x80u8, 0x03, 0, 0];
+    nak.extend_from_slice(&seq.to_be_bytes());
+    sh.uplink_pkt(h, &nak);
+    let a = snap(&sh);
+    // nothing the victim holds has ever been on its wire: it cannot be charged
+    let _ = queued_only;
+    vensure!(a[v] == b[v], "nak-charged-link-that-never-sent", "NAK {seq}: the stall-gated link {v} cannot send (socket error), its probe flush {}; it was charged {:?} -> {:?}", if torn { "failed and tore it down" } else { "has not happened yet" }, b[v], a[v]);
+    Ok(())
+}
+
+fn probe_fail_strategy() -> impl proptest::strategy::Strategy<Value = ProbeFail> {
+    use proptest::prelude::*;
+    (any::<u8>(), prop_oneof![Just(250u16), Just(300), 250u16..900], prop_oneof![Just(405u16), Just(450), 300u16..900], any::<u16>(), any::<bool>()).prop_map(|(victim, silent_ms, packets, nak_pick, classic)| ProbeFail { victim, silent_ms, packets, nak_pick, classic })
+}
+
 pub fn run(ctx: &Ctx) -> &'static str {
     ctx.assume("ownership model: last unique routing per slot (seq mod 16384), valid for 5000 ms inclusive, purged when its link is removed by a reload; written independently of SequenceTracker");
     ctx.assume("[history] probe copies are queued the way send_stall_probes does it (queue_data_packet without a tracker entry); [real-routing] they are made by the real send_stall_probes inside handle_srt_packet");
     for (file, body) in ctx.replay_files() {
         if !ctx.replay_case::<acct::Case, _>("history", &file, &body, |c, o| acct::check(c, o, Which::C05))
             && !ctx.replay_case::<decide::Case, _>("real-routing", &file, &body, |c, o| decide::check(c, o, decide::Which::C05, ctx))
+            && !ctx.replay_case::<ProbeFail, _>("probe-flush-failure", &file, &body, check_probe_fail)
         {
             eprintln!("replay {}: unknown part", file.display());
         }
@@ -31,6 +139,13 @@ pub fn run(ctx: &Ctx) -> &'static str {
         ctx.tier.pick(40_000, 400_000),
         || decide::strategy(mo),
         |_| |c: &decide::Case, o: &mut crate::rt::Obs| decide::check(c, o, decide::Which::C05, ctx),
+    );
+    ctx.explore(
+        "probe-flush-failure",
+        "a stall-gated link whose socket cannot send, in the low-activity batch regime: 300..900 data packets through the real handle_srt_packet (every 100th duplicated onto the gated link by the real send_stall_probes, the fourth probe triggers a flush that fails), 5001 ms later a NAK for one of the probed numbers: the link that never sent anything is not charged; non-trivial = the probe flush failed and tore the link down",
+        ctx.tier.pick(160, 2_000),
+        probe_fail_strategy,
+        |_| check_probe_fail,
     );
     "exploration"
 }
